@@ -231,6 +231,7 @@ class Unit:
         txt = sp.text
         txt = apply_rules(txt, rules, notes, self.extra_log_macros)
         txt = self._apply_substs(txt, s, notes)
+        txt = _slice_adapters(txt, notes)
         rewritten = txt
         assumed = s.opt('assumed_from')
         if assumed:
@@ -436,6 +437,24 @@ def _loops(mask, a, b):
     return res
 
 
+def _slice_adapters(txt, notes):
+    """R6s: `X.as_slice().skip(n)` / `.take(n)` (an iterator parameter was replaced by the slice it iterates, so
+    iterator adapters at the call site become sub-slices) => vf_slice_skip / vf_slice_take (shims/iter.rs)"""
+    from .rewrite import _receiver_start
+    while True:
+        mask = mask_text(txt)
+        m = re.search(r'\.as_slice\(\)\s*\.(skip|take)\s*\(', mask)
+        if not m:
+            return txt
+        rs = _receiver_start(mask, m.start())
+        op = m.end() - 1
+        cl = match_close(mask, op)
+        recv = txt[rs:m.start()]
+        arg = txt[op + 1:cl]
+        txt = txt[:rs] + 'vf_slice_%s(%s.as_slice(), %s)' % (m.group(1), recv, arg) + txt[cl + 1:]
+        notes.add('R6', 'slice adapter `.%s(..)` lowered to vf_slice_%s' % (m.group(1), m.group(1)))
+
+
 def _closures(mask, a, b):
     """closures `|args| body` / `|| body` in mask[a:b]: list of (bar1, bar2, body_start)"""
     res = []
@@ -585,14 +604,39 @@ def weave(txt, s, notes, canary=False):
                 le = txt.find('\n', pos)
                 inserts.append((le + 1, body + '\n'))
         elif name == 'closure':
-            k = int(arg)
+            k = int(arg.split()[0])
             cl = _closures(mask, body_open, body_close)
             if k < 1 or k > len(cl):
                 raise ExtractError('@closure %d: function %s has %d closures' % (k, s.args[1], len(cl)))
             b1, b2, bs = cl[k - 1]
+            # optional parameter types:  @closure K name: Type ; name2: Type2   (made explicit mechanically)
+            ptypes = arg.split(None, 1)[1] if len(arg.split(None, 1)) > 1 else ''
+            for pt in [x.strip() for x in ptypes.split(';') if x.strip()]:
+                pname, ptype = [x.strip() for x in pt.split(':', 1)]
+                mo = re.search(r'\b%s\b(?!\s*:)' % re.escape(pname), mask[b1 + 1:b2])
+                if mo:
+                    inserts.append((b1 + 1 + mo.end(), ': ' + ptype))
+                    notes.add('W', 'closure %d parameter `%s` given its explicit type' % (k, pname))
             if mask[bs] != '{' and not mask.startswith('->', bs):
-                raise ExtractError('@closure %d in %s: closure body is not a block' % (k, s.args[1]))
-            inserts.append((b2 + 1, ' ' + body.strip() + ' '))
+                # expression-bodied closure: wrap the body in a block so that it can carry a contract
+                j = bs
+                depth = 0
+                while j < body_close:
+                    ch = mask[j]
+                    if ch in OPEN:
+                        depth += 1
+                    elif ch in CLOSE:
+                        if depth == 0:
+                            break
+                        depth -= 1
+                    elif ch in ',;' and depth == 0:
+                        break
+                    j += 1
+                inserts.append((b2 + 1, ' ' + body.strip() + ' { '))
+                inserts.append((j, ' }'))
+                notes.add('W', 'closure %d expression body wrapped in a block' % k)
+            else:
+                inserts.append((b2 + 1, ' ' + body.strip() + ' '))
         elif name == 'loopbody':
             k = int(arg.split()[0])
             loops = _loops(mask, body_open, body_close)
